@@ -338,14 +338,17 @@ package nbhttp
 //@   at call:ParseInt#1 ghost { p.gCLparsed = true; p.gCLerr = result1 != nil; p.gCLval = result0 }
 //@   loop 1
 //@     invariant -1 <= i && i < len(cl)
+//@ pred NoFraming(m http.Header) := m != nil && !has(m, "Content-Length") && !has(m, "Transfer-Encoding") && !has(m, "Trailer")
 //@ func (*Parser).parseTrailer
 //@   props C08
 //@   safety index slice nil div assert panic make
+//@   note framing headers are never accepted as trailer names (C08): a Trailer header that names Transfer-Encoding, Trailer or Content-Length is an error, so the trailer set that is kept contains none of them
+//@   ensures forbidden: result == nil && p.trailer != old(p.trailer) ==> NoFraming(p.trailer)   // prop C08
 //@   assigns p.trailer, allmaps("string", "[]string"), allocates
 //@   loop 1
-//@     invariant rangeindex >= -1
+//@     invariant rangeindex >= -1 && NoFraming(trailer) && p.trailer == old(p.trailer)
 //@   loop 2
-//@     invariant rangeindex >= -1
+//@     invariant rangeindex >= -1 && NoFraming(trailer) && p.trailer == old(p.trailer)
 //@ func (*Parser).handleMessage
 //@   inline
 
